@@ -233,10 +233,12 @@ PROPS = {
     ),
     "C12": dict(
         title="A killed writer leaves only complete final files and whole-record prefixes",
-        lean_modules=["Gowarc.Props.C12"],
+        lean_modules=["Gowarc.Props.C12", "Gowarc.Props.C12link"],
+        audit_namespaces=["Gowarc.Props.C12"],
         n_quick=40, n_thorough=600,
-        required_theorems=["C12_all", "C12_shape", "C12_acked", "C12_final_complete", "C12_open", "members_run", "file_run", "files_run", "reachable_closed"],
-        model_assumptions=["the model's effect log is the writer's program order for one worker (create, member bytes, optional fsync, acknowledgement, close, rename); that the implementation issues exactly these effects in this order is what the strace comparison checks on every generated history",
+        required_theorems=["C12_all", "C12_shape", "C12_acked", "C12_final_complete", "C12_open", "members_run", "file_run", "files_run", "reachable_closed",
+                           "C12_log_is_run", "C12_ack_is_response", "step_log", "write_log"],
+        model_assumptions=["the model's effect log is the writer's program order for one worker (create, member bytes, optional fsync, acknowledgement, close, rename); C12_log_is_run proves that it is exactly what the writer model of C04/C13 issues step by step along any run; that the implementation issues these effects in this order is what the strace comparison checks on every generated history",
                            "byte-granular kill points (one effect per byte) are a superset of the real ones (write syscalls of arbitrary chunking, including the compressor's)",
                            "process kill, not power loss: the kernel keeps completed writes and renames atomically; page cache loss is outside the property",
                            "one record per Write call in these workloads (the acknowledgement of a batch comes after all of its records; batches are C04/C09); Rotate concurrent with a Write is C09"],
